@@ -260,7 +260,9 @@ class UnionConverter(Converter[t.Any]):
         for conv in self.converters:
             try:
                 conv.try_convert(val)
-            except ParseInterrupt:
+            except Exception:
+                # `val` is a converted value, not data: besides ParseInterrupt, a member which doesn't
+                # match may fail in other ways (e.g. comparing a numpy array with a literal)
                 pass
             else:
                 return conv.into_data(val)
